@@ -255,6 +255,52 @@ func optName(o encoder.Options) string {
 	return strings.Join(s, "|")
 }
 
+// c12Deep builds a value nested close to the encoder's nesting limit (4096 saved states; a level
+// of nesting costs 1, 2 or more states depending on its shape, so depths near 4096/k are drawn).
+func c12Deep(r *gen.Rng) (interface{}, string) {
+	k := 1 + r.Intn(4)
+	depth := 4096/k + r.Range(-3, 3)
+	shape := r.Intn(5)
+	var v interface{} = 1
+	switch shape {
+	case 0:
+		for j := 0; j < depth; j++ {
+			v = []interface{}{v}
+		}
+	case 1:
+		for j := 0; j < depth; j++ {
+			v = map[string]interface{}{"k": v}
+		}
+	case 2:
+		var l *cat.List
+		for j := 0; j < depth; j++ {
+			l = &cat.List{V: float64(j), Next: l}
+		}
+		v = l
+	case 3:
+		var t *cat.Tree
+		for j := 0; j < depth; j++ {
+			if j%2 == 0 {
+				t = &cat.Tree{Val: j, Left: t}
+			} else {
+				t = &cat.Tree{Val: j, Kids: []*cat.Tree{t}}
+			}
+		}
+		v = t
+	default:
+		for j := 0; j < depth; j++ {
+			if j%2 == 0 {
+				v = []interface{}{v}
+			} else {
+				v = &v
+				var w interface{} = v
+				v = w
+			}
+		}
+	}
+	return v, fmt.Sprintf("shape %d depth %d", shape, depth)
+}
+
 func runC12(c *Ctx) {
 	N := c.N(3000, 200000)
 	for i := 0; i < N; i++ {
@@ -278,9 +324,15 @@ func runC12(c *Ctx) {
 			opts |= encoder.SortMapKeys
 		}
 		arg := cs.arg()
+		deep := ""
+		if i%25 == 7 {
+			// values nested around the encoder's state-stack limit: both back ends must give up at the same depth
+			arg, deep = c12Deep(r)
+			c.Count("values_nested_around_the_state_stack_limit", 1)
+		}
 		var out []byte
 		var err error
-		c.Vf("TYPE %s\nHOW %s OPTS %s\nVALUE %s", gen.Describe(cs.t), cs.label, optName(opts), trunc(gen.Dump(cs.v), 3000))
+		c.Vf("TYPE %s\nHOW %s OPTS %s DEEP %s\nVALUE %s", gen.Describe(cs.t), cs.label, optName(opts), deep, trunc(gen.Dump(cs.v), 3000))
 		if c.Guard(i, "encoder.Encode", func() { out, err = encoder.Encode(arg, opts) }) {
 			c.Digest(i, "PANIC")
 			continue
@@ -294,7 +346,7 @@ func runC12(c *Ctx) {
 			c.Vf("ERR %s", errStr(err))
 		}
 		c.Digest(i, dig)
-		c.Distinct(gen.HashString(gen.Describe(cs.t)+"|"+cs.label+"|"+optName(opts)+"|"+gen.Dump(cs.v)), true)
+		c.Distinct(gen.HashString(gen.Describe(cs.t)+"|"+cs.label+"|"+optName(opts)+"|"+gen.Dump(cs.v)+deep), true)
 		c.Count("optionsets_"+strconv.Itoa(int(opts)&0x3), 1)
 		c.Sample("case", 2, map[string]string{"type": trunc(gen.Describe(cs.t), 200), "opts": optName(opts)})
 	}
